@@ -500,6 +500,14 @@ def one_dataset(obs, ctx, rng, spec, pending, tmpdir):
     if isinstance(inventory, Failed):
         return
     c.inventory = [str(n) for n in inventory]
+    missing_from_inventory = sorted(set(c.names) - set(c.inventory))
+    if missing_from_inventory:
+        # A variable the generated file uses as geometry (the model built the cells from it) is not part of what
+        # emsarray hashes: a change to it cannot change the key - which is what the property forbids.
+        obs.fail('a geometry variable of the dataset is not part of the hashed geometry inventory',
+                 {'missing': missing_from_inventory, 'emsarray': sorted(c.inventory), 'model': sorted(c.names), 'convention': c.conv},
+                 mech='geometry-variable-not-hashed')
+        return
     if sorted(c.inventory) != sorted(c.names):
         obs.cls('inventory-disagreement-reported-not-asserted')
         if not any(r.startswith('geometry inventory') for r in obs.inconclusive):
@@ -567,6 +575,35 @@ def _compare_fresh_one(obs, by_seed, key, canonical, fp, spec):
                          mech='cache-key-depends-on-process')
 
 
+def large_geometry_case(obs, rng, spec):
+    """A curvilinear grid whose coordinate variables are larger than 1 MiB each (block-wise hashing must reach the end)."""
+    import xarray
+    from emsarray.operations.cache import make_cache_key
+    nj, ni = 380 + int(rng.integers(0, 30)), 400
+    jj, ii = numpy.meshgrid(numpy.arange(nj, dtype=float), numpy.arange(ni, dtype=float), indexing='ij')
+    lon = 110 + 0.01 * ii + 0.001 * jj
+    lat = -35 + 0.01 * jj - 0.001 * ii
+
+    def build(lon, lat, data):
+        return xarray.Dataset({'eta': (('y', 'x'), data)},
+                              coords={'lat': (('y', 'x'), lat, {'units': 'degrees_north', 'standard_name': 'latitude'}),
+                                      'lon': (('y', 'x'), lon, {'units': 'degrees_east', 'standard_name': 'longitude'})})
+    obs.cls('dataset:geometry-variable-larger-than-1MiB')
+    obs.sig('large', nj, ni)
+    with quiet_warnings():
+        base = obs.call('make_cache_key (large)', make_cache_key, build(lon, lat, numpy.zeros((nj, ni))))
+        same = obs.call('make_cache_key (large, other data)', make_cache_key, build(lon.copy(), lat.copy(), numpy.ones((nj, ni))))
+        edited = lat.copy()
+        j, i = nj - 1 - int(rng.integers(0, 5)), int(rng.integers(ni))
+        edited[j, i] = numpy.nextafter(edited[j, i], numpy.inf)
+        other = obs.call('make_cache_key (large, one value near the end changed by 1 ulp)', make_cache_key, build(lon.copy(), edited, numpy.zeros((nj, ni))))
+    if any(isinstance(k, Failed) for k in (base, same, other)):
+        return
+    obs.expect(base == same, 'same geometry, different data: same key (large grid)', mech='cache-key-not-invariant')
+    obs.expect(base != other, 'a 1-ulp change near the END of a > 1 MiB geometry variable changes the key',
+               lambda: {'shape': [nj, ni], 'edited': [j, i]}, mech='geometry-edit-not-in-key')
+
+
 def run(ctx):
     obs = ctx.obs
     obs.extra['meta'] = META
@@ -577,6 +614,13 @@ def run(ctx):
             conv = CONVENTIONS[case % len(CONVENTIONS)]
             spec = {'case': case, 'convention': conv}
             ctx.run_case(spec, one_dataset, obs, ctx, rng, spec, pending, tmpdir)
+        total = ctx.n(160, 4000)
+        for extra in range(ctx.n(1, 4)):
+            case = total + extra
+            if (ctx.only_case is None and case % ctx.nshards == ctx.shard) or ctx.only_case == case:
+                from ..rng import gen
+                spec = {'case': case, 'large': True}
+                ctx.run_case(spec, large_geometry_case, obs, gen(ctx.seed, 'C16', case, 'large'), spec)
         compare_fresh(obs, ctx, pending)
     finally:
         shutil.rmtree(tmpdir, ignore_errors=True)
